@@ -19,8 +19,10 @@ static void put(Obs& o, const std::string& label, const std::vector<double>& v, 
 static void put_exc(Obs& o, const std::string& label, const std::string& what, bool root_only = false) { o.push_back(Item{label, {}, what, root_only}); }
 static void push(std::vector<double>& v, ComplexType z) { v.push_back(z.real()); v.push_back(z.imag()); }
 
+struct Call { bool split, clear; };
 struct Workload {
-    int model; long mp; bool nosym; double beta; int wf; bool split, clear;
+    int model; long mp; bool nosym; double beta; int wf; int hrep;
+    std::vector<Call> calls;      // consecutive bulk computations on the same objects ("s0" = split, keep terms; "n1" = unsplit, clear terms)
     std::vector<std::string> quads; std::string freqs;
 };
 
@@ -33,7 +35,10 @@ static void workflow(const Workload& w, Obs& obs, std::map<std::string, long>* p
     const bool root = comm.rank() == 0;
     models::Stage0 s0(w.model, w.mp, w.nosym);
     s0.H->prepare(comm);
+    if (w.hrep & 1) s0.H->prepare(comm);   // the documented calls are idempotent: a repeated call must be harmless on every rank
     s0.H->compute(comm);
+    if (w.hrep & 2) s0.H->compute(comm);
+    if (w.hrep & 4) s0.H->prepare(comm);
     { // (2) eigen-data on every rank
         std::vector<double> ev, vecs;
         for (BlockNumber b = 0; b < s0.S->NumberOfBlocks(); b++) {
@@ -75,10 +80,13 @@ static void workflow(const Workload& w, Obs& obs, std::map<std::string, long>* p
             TwoParticleGF chi(*s0.S, *s0.H, s1.Ops->getAnnihilationOperator(q.Index1), s1.Ops->getAnnihilationOperator(q.Index2),
                               s1.Ops->getCreationOperator(q.Index3), s1.Ops->getCreationOperator(q.Index4), *s1.rho);
             chi.prepare();
-            std::vector<ComplexType> table = chi.compute(w.clear, freqs, comm);
-            std::vector<double> t; for (auto& z : table) push(t, z);
-            put(obs, "table[" + w.quads[k] + "]#" + std::to_string(k), t, /*root_only=*/true); // TwoParticleGF::compute reduces to the root
-            eval_component("chi[" + w.quads[k] + "]#" + std::to_string(k), chi, 0);
+            if (w.hrep & 8) chi.prepare();
+            for (size_t ci = 0; ci < w.calls.size(); ci++) {
+                std::vector<ComplexType> table = chi.compute(w.calls[ci].clear, freqs, comm);
+                std::vector<double> t; for (auto& z : table) push(t, z);
+                put(obs, "table[" + w.quads[k] + "]#" + std::to_string(k) + "/call" + std::to_string(ci), t, /*root_only=*/true); // TwoParticleGF::compute reduces to the root
+                eval_component("chi[" + w.quads[k] + "]#" + std::to_string(k) + "/call" + std::to_string(ci), chi, 0);
+            }
             if (probes && chi.isVanishing()) (*probes)["vanishing_component"]++;
             if (probes && !root && !chi.isVanishing()) (*probes)["evaluated_on_nonroot_rank"]++;
         }
@@ -87,32 +95,39 @@ static void workflow(const Workload& w, Obs& obs, std::map<std::string, long>* p
         std::set<IndexCombination4> idx;
         for (auto& q : w.quads) idx.insert(quad(q));
         Chi.prepareAll(idx);
-        std::map<IndexCombination4, std::vector<ComplexType> > tables = Chi.computeAll(w.clear, freqs, comm, w.split);
-        { // (4) returned tables: key set and values. split: every rank (the code broadcasts); unsplit: root (the code reduces to root)
-            std::vector<double> keys;
-            for (auto& kv : tables) { keys.push_back(kv.first.Index1); keys.push_back(kv.first.Index2); keys.push_back(kv.first.Index3); keys.push_back(kv.first.Index4); keys.push_back((double)kv.second.size()); }
-            put(obs, "table-keys", keys, false);
-            for (auto& kv : tables) { std::vector<double> t; for (auto& z : kv.second) push(t, z); put(obs, "table[" + quad_str(kv.first) + "]", t, !w.split); }
-        }
-        // (5) every listed component evaluated from its terms on every rank
-        for (auto& kv : Chi.ElementsMap) {
-            ElementWithPermFreq<TwoParticleGF>& e = Chi(kv.first);
-            eval_component("chi[" + quad_str(kv.first) + "]", static_cast<TwoParticleGF&>(e), &e);
+        for (size_t ci = 0; ci < w.calls.size(); ci++) {
+            const Call& call = w.calls[ci];
+            std::string cs = "/call" + std::to_string(ci);
+            std::map<IndexCombination4, std::vector<ComplexType> > tables = Chi.computeAll(call.clear, freqs, comm, call.split);
+            { // (4) returned tables: key set and values. split: every rank (the code broadcasts); unsplit: root (the code reduces to root)
+                std::vector<double> keys;
+                for (auto& kv : tables) { keys.push_back(kv.first.Index1); keys.push_back(kv.first.Index2); keys.push_back(kv.first.Index3); keys.push_back(kv.first.Index4); keys.push_back((double)kv.second.size()); }
+                put(obs, "table-keys" + cs, keys, false);
+                for (auto& kv : tables) { std::vector<double> t; for (auto& z : kv.second) push(t, z); put(obs, "table[" + quad_str(kv.first) + "]" + cs, t, !call.split); }
+            }
+            // (5) every listed component evaluated from its terms on every rank
+            for (auto& kv : Chi.ElementsMap) {
+                ElementWithPermFreq<TwoParticleGF>& e = Chi(kv.first);
+                eval_component("chi[" + quad_str(kv.first) + "]" + cs, static_cast<TwoParticleGF&>(e), &e);
+            }
         }
         if (probes) {
             size_t nt = Chi.NonTrivialElements.size();
             int P = comm.size();
+            bool any_split = false; for (auto& c : w.calls) any_split = any_split || c.split;
             if ((int)nt < P) (*probes)["components_fewer_than_ranks"]++;
             if (nt && P % nt && nt % P) (*probes)["components_and_ranks_coprime_ish"]++;
-            if (w.split && P > (int)nt && nt) (*probes)["colour_with_2+_ranks"]++;
-            if (w.split && nt > (size_t)P && nt % P) (*probes)["colours_with_unequal_components"]++;
+            if (any_split && P > (int)nt && nt) (*probes)["colour_with_2+_ranks"]++;
+            if (any_split && nt > (size_t)P && nt % P) (*probes)["colours_with_unequal_components"]++;
+            if (w.calls.size() > 1) (*probes)["repeated_bulk_computation"]++;
             for (auto& kv : Chi.NonTrivialElements) if (kv.second->isVanishing()) { (*probes)["vanishing_component"]++; break; }
         }
     }
     if (probes) {
         if ((int)s0.S->NumberOfBlocks() < comm.size()) (*probes)["blocks_fewer_than_ranks"]++;
         if (freqs.empty()) (*probes)["empty_frequency_list"]++;
-        if (w.clear) (*probes)["clear_terms"]++;
+        for (auto& c : w.calls) if (c.clear) { (*probes)["clear_terms"]++; break; }
+        if (w.hrep) (*probes)["repeated_prepare_or_compute"]++;
         if (sim::cur()->opt().omp_threads > (int)freqs.size() && !freqs.empty()) (*probes)["omp_team_larger_than_freqs"]++;
     }
 }
@@ -154,14 +169,18 @@ static hc::Outcome run_one(hc::RunSpec& rs) {
     bool thorough_models = c.i("big", 0) != 0;
     int P; { int x = r.below(100); P = x < 10 ? 1 : x < 60 ? r.range(2, 4) : x < 85 ? r.range(5, 8) : r.pick(std::vector<int>{9, 12, 16}); }
     c.def("P", P); P = std::max(1, std::min(16, (int)c.i("P"))); c.set("P", P);
-    int model; { int x = r.below(100); model = x < 25 ? models::ATOM : x < 60 ? models::DIMER : x < 72 ? models::KANAMORI : x < 82 ? models::ATOM_FIELD : x < 95 ? models::DIMER_FIELD : (thorough_models ? models::CHAIN3 : models::DIMER); }
+    int model; { int x = r.below(100); model = x < 25 ? models::ATOM : x < 60 ? models::DIMER : x < 72 ? models::KANAMORI : x < 80 ? models::ATOM_FIELD : x < 90 ? models::DIMER_FIELD : x < 96 ? models::ATOMS2 : (thorough_models ? models::CHAIN3 : models::DIMER); }
     c.def("model", model); model = (int)c.i("model") % models::N_MODELS; if (model < 0) model = 0; c.set("model", model);
     c.def("mp", r.pct(15) ? 0 : r.range(1, 100000));
     c.def("nosym", r.pct(15));
     c.def("beta", r.pick(std::vector<int>{1, 2, 3, 5, 8, 10, 20}));
     c.def("wf", r.pct(25) ? 0 : 1);
-    c.def("split", r.pct(65));
-    c.def("clear", r.pct(12));
+    { // 1..3 consecutive bulk computations; the first is split with 65 %, clears terms with 12 %
+        int nc = r.pct(75) ? 1 : r.range(2, 3); std::string cs;
+        for (int i = 0; i < nc; i++) { if (i) cs += ','; cs += r.pct(65) ? 's' : 'n'; cs += r.pct(12) ? '1' : '0'; }
+        c.def("calls", cs);
+    }
+    c.def("hrep", r.pct(80) ? 0 : r.range(1, 15));
     int nm = models::nmodes(model);
     int K = (c.i("wf") == 0) ? r.range(1, 2) : r.range(1, nm == 2 ? 6 : 5);
     { std::string q; std::set<std::string> seen; for (int k = 0; k < K; k++) { std::string s = models::rand_quad(r, nm); if (c.i("wf") == 1 && !seen.insert(s).second) continue; if (!q.empty()) q += ','; q += s; } c.def("quads", q); }
@@ -169,15 +188,19 @@ static hc::Outcome run_one(hc::RunSpec& rs) {
     hc::sim_defaults_from_seed(c, r, P);
     // normalise
     Workload w;
-    w.model = model; w.mp = c.i("mp"); w.nosym = c.i("nosym") != 0; w.beta = std::max(1L, c.i("beta")); w.wf = c.i("wf") ? 1 : 0; w.split = c.i("split") != 0; w.clear = c.i("clear") != 0;
+    w.model = model; w.mp = c.i("mp"); w.nosym = c.i("nosym") != 0; w.beta = std::max(1L, c.i("beta")); w.wf = c.i("wf") ? 1 : 0; w.hrep = (int)(c.i("hrep") & 15);
+    for (auto& t : hc::split(c.s("calls"), ',')) if (t.size() == 2 && (t[0] == 's' || t[0] == 'n')) w.calls.push_back(Call{t[0] == 's', t[1] == '1'});
+    if (w.calls.empty()) w.calls.push_back(Call{true, false});
+    if (w.calls.size() > 3) w.calls.resize(3);
+    { std::string cs; for (auto& cl : w.calls) { if (!cs.empty()) cs += ','; cs += cl.split ? 's' : 'n'; cs += cl.clear ? '1' : '0'; } c.set("calls", cs); }
     for (auto& q : hc::split(c.s("quads"), ',')) { if (q.size() != 4) continue; bool ok = true; for (char ch : q) if (ch < '0' || ch >= '0' + nm) ok = false; if (ok) w.quads.push_back(q); }
     if (w.quads.empty()) w.quads.push_back("0101");
     { std::string q; for (auto& s : w.quads) { if (!q.empty()) q += ','; q += s; } c.set("quads", q); }
-    c.set("mp", w.mp); c.set("nosym", w.nosym); c.set("beta", (long)w.beta); c.set("wf", w.wf); c.set("split", w.split); c.set("clear", w.clear);
+    c.set("mp", w.mp); c.set("nosym", w.nosym); c.set("beta", (long)w.beta); c.set("wf", w.wf); c.set("hrep", w.hrep);
     if (c.s("freqs").empty()) c.set("freqs", "-");
     w.freqs = c.s("freqs") == "-" ? "" : c.s("freqs");
     std::string wkey = "model=" + std::to_string(w.model) + " mp=" + std::to_string(w.mp) + " nosym=" + std::to_string(w.nosym) + " beta=" + std::to_string((int)w.beta) + " wf=" + std::to_string(w.wf) +
-                       " split=" + std::to_string(w.split) + " clear=" + std::to_string(w.clear) + " quads=" + c.s("quads") + " freqs=" + c.s("freqs");
+                       " calls=" + c.s("calls") + " hrep=" + std::to_string(w.hrep) + " quads=" + c.s("quads") + " freqs=" + c.s("freqs");
 
     hc::announce(rs);
     hc::Outcome oc;
